@@ -170,6 +170,10 @@ Rejected == /\ l <= Len(Trace) /\ Trace[l].ev \in {"Rejected", "Names"} /\ l' = 
 \* does not reach the client (C11)
 Hang == /\ Ev("Hang") /\ bad' = (IF Prop = "C11" THEN bad \cup {l} ELSE bad)
         /\ UNCHANGED <<sem, pats, known, block, failStatus, stats, pos>>
+\* the header map of a response the handler had not committed changed after the middleware returned (other middlewares served
+\* requests in between): the client gets headers that are not this response's (C03: well-formedness; C12: independence)
+LateChange == /\ Ev("LateChange") /\ bad' = (IF Prop \in {"C03", "C12", "C10"} THEN bad \cup {l} ELSE bad)
+              /\ UNCHANGED <<sem, pats, known, block, failStatus, stats, pos>>
 Panic == Ev("Panic") /\ UNCHANGED <<sem, pats, bad, known, block, failStatus, stats, pos>>   \* C17's business
 BlockStart == /\ Ev("Block")
               /\ block' = IF Prop = "C09" /\ Trace[l].dbg THEN block ELSE <<>>   \* C09: the debug-on block is compared
@@ -224,7 +228,7 @@ Serve ==
 
 Init == l = 1 /\ sem = [pass |-> TRUE] /\ pats = {} /\ bad = {} /\ known = {} /\ block = <<>> /\ failStatus = 0
         /\ stats = [a |-> 0, b |-> 0] /\ pos = 1
-Next == Config \/ Rejected \/ Panic \/ Hang \/ BlockStart \/ BlockEnd \/ Serve
+Next == Config \/ Rejected \/ Panic \/ Hang \/ LateChange \/ BlockStart \/ BlockEnd \/ Serve
 Spec == Init /\ [][Next]_vars
 
 Final == (l = Len(Trace) + 1) =>
